@@ -191,7 +191,16 @@ func init() {
 				}
 				n++
 				need := map[string]bool{"v-else-if": false, "v-else": false}
-				note := func(cnd ssa.Value, want bool) {
+				var note func(cnd ssa.Value, want bool)
+				note = func(cnd ssa.Value, want bool) {
+					// (the test kept in a boolean local: `stray := HasAttr(…) || HasAttr(…); if !pre && stray { continue }`)
+					if alts, isOr, ok := shortCircuitAlternatives(cnd); ok && want != isOr {
+						for _, a := range alts {
+							ac, aflip := stripNot(a)
+							note(ac, want != aflip)
+						}
+						return
+					}
 					if cl := isCallNamed(cnd, "helpers.HasAttr"); cl != nil && !want {
 						if k, ok := constString(cl.Call.Args[1]); ok {
 							if _, has := need[k]; has {
